@@ -37,9 +37,19 @@ def run_one(row, verbose=False):
         src = open(p).read()
       except OSError:
         return (row, "skipped", "file missing")
-      if src.count(ed["old"]) != 1:
+      if src.count(ed["old"]) > 1 and ed.get("line"):
+        # a hunk of a stored patch: take the occurrence nearest to the line the patch names
+        starts = []
+        pos = src.find(ed["old"])
+        while pos >= 0:
+          starts.append(pos)
+          pos = src.find(ed["old"], pos + 1)
+        best = min(starts, key=lambda q: abs(src.count("\n", 0, q) + 1 - ed["line"]))
+        src = src[:best] + ed["new"] + src[best + len(ed["old"]):]
+      elif src.count(ed["old"]) != 1:
         return (row, "skipped", "anchor text occurs %d times" % src.count(ed["old"]))
-      src = src.replace(ed["old"], ed["new"])
+      else:
+        src = src.replace(ed["old"], ed["new"])
       if p.endswith(".py"):
         try:
           compile(src, p, "exec")
